@@ -282,16 +282,25 @@ class Body:
         if ok {..}` idiom and values returned by spliced-in helpers, which plain path search over-approximates."""
         avoid, goals, avoid_edges = set(avoid), set(goals), set(avoid_edges)
 
+        def pkey(pl):
+            return ("P",) + tuple(str(x) for x in pl)
+
+        def kill(env, pl):
+            pp = tuple(str(x) for x in pl)
+            for k in [k for k in env if isinstance(k, tuple)]:
+                kp = k[1:]
+                if kp[:len(pp)] == pp or pp[:len(kp)] == kp:
+                    del env[k]
+
         def step(bb, env):
+            """Also tracks *field places* (`(*self).item = None`, `discriminant((*self).data)`, `Option::is_none(&(*self).x)`,
+            `Option::take(&mut (*self).x)`): a mutable borrow of a place forgets what is known about it (and about
+            everything overlapping it), so only facts established by plain stores survive."""
             env = dict(env)
             for st in self.stmts(bb):
                 if st.get("k") != "assign":
                     continue
                 p = st["p"]
-                if len(p) != 1:
-                    if p and p[0] in env:
-                        env.pop(p[0], None)
-                    continue
                 rv = st["rv"]
                 val = None
                 if rv["r"] == "use":
@@ -306,14 +315,35 @@ class Body:
                             val = None
                     elif o[0] != "k" and len(o[1]) == 1 and o[1][0] in env:
                         val = env[o[1][0]]
+                    elif o[0] != "k" and len(o[1]) > 1:
+                        val = env.get(pkey(o[1]))
+                        if o[0] == "m":
+                            kill(env, o[1])
                 elif rv["r"] == "agg" and rv.get("kind") == "adt" and rv.get("variant") is not None:
                     val = ("variant", rv["variant"])
-                elif rv["r"] == "discr" and len(rv["p"]) == 1 and rv["p"][0] in env:
-                    cur = env[rv["p"][0]]
+                elif rv["r"] == "discr":
+                    dp = rv["p"]
+                    if len(dp) >= 2 and dp[1] == "*" and isinstance(env.get(dp[0]), tuple) and env[dp[0]][0] in ("ref", "refmut"):
+                        cur = env.get(env[dp[0]][1] + tuple(str(x) for x in dp[2:]))     # discriminant(*r) with r = &place
+                    else:
+                        cur = env.get(dp[0]) if len(dp) == 1 else env.get(pkey(dp))
                     if isinstance(cur, tuple) and cur[0] == "variant":
                         for idx, name in rv.get("variants", []):
                             if name == cur[1]:
                                 val = int(idx)
+                elif rv["r"] == "ref" and len(rv["p"]) > 1:
+                    if rv.get("m") in ("mut", "Mut", True) or "mut" in str(rv.get("m", "")).lower():
+                        kill(env, rv["p"])
+                        val = ("refmut", pkey(rv["p"]))
+                    else:
+                        val = ("ref", pkey(rv["p"]))
+                if len(p) != 1:
+                    if p and p[0] in env:
+                        env.pop(p[0], None)
+                    kill(env, p)
+                    if val is not None and not (isinstance(val, tuple) and val[0] in ("ref", "refmut")):
+                        env[pkey(p)] = val
+                    continue
                 if val is None:
                     env.pop(p[0], None)
                 else:
@@ -332,6 +362,17 @@ class Body:
                                 env[t["d"][0]] = ("variant", "Continue")
                             elif cur[1] in ("None", "Err"):
                                 env[t["d"][0]] = ("variant", "Break")
+                    elif c in ("std::option::Option::is_none", "std::option::Option::is_some") and t["a"] and \
+                            t["a"][0][0] != "k" and len(t["a"][0][1]) == 1:
+                        r = env.get(t["a"][0][1][0])
+                        if isinstance(r, tuple) and r[0] in ("ref", "refmut"):
+                            cur = env.get(r[1])
+                            if isinstance(cur, tuple) and cur[0] == "variant" and cur[1] in ("None", "Some"):
+                                env[t["d"][0]] = int((cur[1] == "None") == c.endswith("is_none"))
+                    elif c == "std::option::Option::take" and t["a"] and t["a"][0][0] != "k" and len(t["a"][0][1]) == 1:
+                        r = env.get(t["a"][0][1][0])
+                        if isinstance(r, tuple) and r[0] == "refmut":
+                            env[r[1]] = ("variant", "None")
                     elif c.endswith("FromResidual::from_residual"):
                         ty = (t.get("fn") or {}).get("self_ty", "") or t.get("dty", "")
                         if ty.startswith("std::option::Option"):
